@@ -22,9 +22,10 @@ type c04Case struct {
 
 func init() {
 	mc.Register(&mc.Property{
-		ID:     "C04",
-		Word32: true,
-		Level:  "exploration",
+		ID:       "C04",
+		Word32:   true,
+		DebugTag: true,
+		Level:    "exploration",
 		Rule: "E1 bounded-exhaustive enumeration: AllPaths on every level mask of height ≤H × every ordered pair (from,to) of the boundary set {p, p-1, p+1, p with a flipped mask bit, p with a flipped search bit | every node p, stored or not} ∪ {0, 2^32-1, 2^32, 2^63, 2^64-1} (heights above H with the pair set {p, p±1}²), oracle = stored nodes of the recursive walk, sorted, filtered by from ≤ p < to; " +
 			"tall sparse masks up to height 30 with narrow windows around a path family, oracle = stored prefixes of the integers in the window (cross-checked against the walk on small heights). " +
 			"Decode on every mask with ≤16 stored nodes × every subset × bitmap shapes {exact, no words, extra words, garbage in bits ≥ size}, on masks up to height 8 with empty/full/singleton/pair subsets, and on multi-word masks of heights 7..9 (thorough 11; leaf-only, full, leaf + one level) with singletons and pairs of indexes next to word boundaries at EVERY bitmap length; oracle = i-th stored node of the walk for every set bit i < size. " +
